@@ -90,7 +90,7 @@ def gen_records(
     onedge = rng.uniform(0.0, 1.0, NMAX) < edge_frac
     edgeidx = rng.integers(0, 64, NMAX)
     if has_w:
-        if w_dtype.startswith("i"):
+        if w_dtype.startswith(("i", "u")):
             w = ((wq - 1) % 4 + 1).astype(w_dtype)
         else:
             w = (wq / 4.0).astype(w_dtype)
@@ -178,7 +178,9 @@ def make_dataframe(records: dict, patch_ids=None):
     return pd.DataFrame(cols)
 
 
-def parquet_row_group_size(n: int, pq_seed: int, pq_rowgroup: int | None = None) -> int:
+def parquet_row_group_size(n: int, pq_seed: int, pq_rowgroup=None) -> int:
+    if isinstance(pq_rowgroup, (list, tuple)):
+        return max(1, int(pq_rowgroup[0]))
     if pq_rowgroup:
         return max(1, int(pq_rowgroup))
     return 1 + (int(pq_seed) % max(1, min(n, 97)))
@@ -193,7 +195,11 @@ def write_source(kind: str, path: str, records: dict, patch_ids=None, *, pq_seed
         from astropy.io import fits
 
         fcols = [
-            fits.Column(name=k, array=v, format=_fits_fmt(v.dtype)) for k, v in cols.items()
+            fits.Column(
+                name=k, array=v, format=_fits_fmt(v.dtype),
+                **({"bzero": 2 ** (8 * v.dtype.itemsize - 1)} if v.dtype.kind == "u" else {}),
+            )
+            for k, v in cols.items()
         ]
         fits.BinTableHDU.from_columns(fcols).writeto(path, overwrite=True)
     elif kind == "hdf5":
@@ -208,14 +214,25 @@ def write_source(kind: str, path: str, records: dict, patch_ids=None, *, pq_seed
 
         table = pa.table(cols)
         rg = parquet_row_group_size(len(table), pq_seed, pq_rowgroup)
-        parquet.write_table(table, path, row_group_size=rg)
+        if isinstance(pq_rowgroup, (list, tuple)):
+            # explicit, possibly non-uniform row groups (e.g. merged tiles): one write per group
+            with parquet.ParquetWriter(path, table.schema) as writer:
+                pos, sizes = 0, list(pq_rowgroup)
+                while pos < len(table):
+                    size = max(1, int(sizes.pop(0) if sizes else pq_rowgroup[-1]))
+                    writer.write_table(table.slice(pos, size), row_group_size=size)
+                    pos += size
+        else:
+            parquet.write_table(table, path, row_group_size=rg)
     else:
         raise ValueError(kind)
     return path
 
 
 def _fits_fmt(dtype) -> str:
-    return {"f8": "D", "f4": "E", "i2": "I", "i4": "J", "i8": "K"}[np.dtype(dtype).str[1:]]
+    # (unsigned integers are stored by astropy as signed + TZERO: the reader gets them back
+    # already in native byte order)
+    return {"f8": "D", "f4": "E", "i2": "I", "i4": "J", "i8": "K", "u2": "I", "u4": "J"}[np.dtype(dtype).str[1:]]
 
 
 SOURCE_EXT = {"fits": ".fits", "hdf5": ".hdf5", "parquet": ".pqt"}
